@@ -1,3 +1,4 @@
+#![allow(unexpected_cfgs)]
 pub mod bo;
 pub mod client;
 pub mod command_line;
@@ -13,3 +14,5 @@ pub mod process_request;
 pub mod replication_ops;
 pub mod security;
 pub mod storage;
+#[cfg(nundb_verif)]
+pub mod verif_hooks;
